@@ -72,6 +72,8 @@ pub struct RunCfg {
     /// directed: crash this (correct) leader shortly after votes for the first slot of this window appear,
     /// so that its window consists of one certified block followed by skipped slots
     pub crash_after_first_block: Option<(usize, u64)>,
+    /// see `SchedState::late_diss`
+    pub late_diss: Option<(BTreeSet<usize>, Duration)>,
     pub label: String,
 }
 
@@ -148,6 +150,7 @@ pub async fn execute(cfg: &RunCfg, rng: &mut SRng) -> RunOut {
         withhold: cfg.withhold.iter().cloned().collect(),
         delivered_late: 0,
         slow_diss: cfg.slow_diss,
+        late_diss: cfg.late_diss.clone(),
         rival: cfg.rival.as_ref().map(|r| RivalSched { pair: (r.u, r.a), slot: None, vote_delay: Duration::from_millis(5000), cert_delay: Duration::from_millis(rng.random_range(150..380)), held_votes: 0, held_certs: 0, next_leader: (r.z + 1) % n, hash_a: None, hold_a: Duration::from_millis(450) }),
     }));
     cl.log.lock().unwrap().track_routes = cfg.track_routes;
